@@ -120,6 +120,7 @@ func checkC19(c *core.Ctx) error {
 		p.stress = 60
 		p.logRuns, p.logLines = 10, 220
 	}
+	p.mc = append(p.mc, chaosMC())
 	p.realCfgs = p.cfgs
 	if err := runPlan(c, p); err != nil {
 		return err
